@@ -140,6 +140,8 @@ def main():
                     rng = ctx.rng(cid)
                     opts = (S.draw_opts(rng, mesh, topo, *KA[kind], variant=vi)[0] or {}) if vi else ({"include_boundary_dofs": True} if (not mesh.is_closed_manifold() and kind in ("P1", "RWG")) else {})
                     r = 4 if vi % 2 == 0 else int(rng.integers(2, 8))
+                    if vi % 2 == 1 and "swapped_normals" not in opts:
+                        opts["swapped_normals"] = [int(sorted(opts.get("segments") or set(mesh.D.tolist()))[-1])]
                     par = O.params(api, r, 4)
                     is_ff = fam.startswith("ff_")
                     kk = 0.0 if k is None else (1j * k if fam == "modified_helmholtz" else k)
